@@ -376,5 +376,6 @@ func runC19(c *core.Ctx, o Options) {
 			c.Check(okMsg, "H4", "DefaultHandler.serve", "every handler is offered the inbound message itself", serve.Pos(), "handle(msg)", "a handler is not called with the inbound message")
 		}
 	}
+	c.RuleMin = map[string]int{"H1": 6, "H2": 7, "H3": 3, "H4": 4}
 	c.MinObl = 20
 }
